@@ -17,6 +17,36 @@ fn main() {
     let findings = load_findings();
 
     if args[1] == "replay" {
+        // raw libFuzzer artifacts are named fuzz-<target>-*.bin
+        let fname = std::path::Path::new(&args[2]).file_name().map(|s| s.to_string_lossy().to_string()).unwrap_or_default();
+        if fname.ends_with(".bin") {
+            let target = fname.strip_prefix("fuzz-").and_then(|s| s.split('-').next()).unwrap_or("").to_string();
+            let data = match std::fs::read(&args[2]) {
+                Ok(d) => d,
+                Err(e) => {
+                    eprintln!("cannot read {}: {e}", args[2]);
+                    std::process::exit(2);
+                }
+            };
+            let prop = sqldt_verif::fuzz_entry::property_of(&target);
+            let r = guarded(|| sqldt_verif::fuzz_entry::by_name(&target, &data));
+            let code = match r {
+                Ok(None) => {
+                    eprintln!("unknown fuzz target in file name {fname}");
+                    2
+                }
+                Ok(Some(Ok(()))) => {
+                    println!("replay {}: property {prop} holds on this fuzz input (profile {})", args[2], profile_name());
+                    0
+                }
+                Ok(Some(Err(m))) | Err(m) => {
+                    println!("VIOLATION property={prop} replay={}", args[2]);
+                    println!("  detail: {m}");
+                    1
+                }
+            };
+            std::process::exit(code);
+        }
         let txt = match std::fs::read_to_string(&args[2]) {
             Ok(t) => t,
             Err(e) => {
